@@ -78,6 +78,10 @@ def run(ctx):
         E.has_call(ctx, "R2", "slot-by-get", prog, f, r"slice::<impl \[T\]>::get$", ["^predicate_data$", "^slot_ix$"])
         E.has_call(ctx, "R2", "words-by-get(range)", prog, f, r"slice::<impl \[T\]>::get$", [r"^slice::get\(predicate_data, slot_ix\)\?$", r"Clone>::clone\(value_range_ix\)$"])
         idx = [c for _, c, _ in E.calls(prog, f) if re.search(r"ops::Index", c)]
+        rows = [(v, at) for _, v, at in M.return_table(prog, f) if v != "<propagate error>"]
+        want = r"^Option::ok_or\(slice::get\(slice::get\(predicate_data, slot_ix\)\?, <std::ops::Range<Idx> as std::clone::Clone>::clone\(value_range_ix\)\), essential_vm::error::AccessError::PredicateDataValueRangeOutOfBounds\{"
+        ctx.ob("R2", "every-result-is-the-checked-sub-slice", len(rows) == 1 and re.match(want, rows[0][0]) is not None and rows[0][1] == ["ok(slice::get(predicate_data, slot_ix))"], "%s:%d" % (f.file, f.line),
+               "results: %s" % [(v[:90], at) for v, at in rows], f)
         ctx.ob("R2", "no-indexing", not idx, "%s:%d" % (f.file, f.line), "index calls %s" % idx, f)
     f = prog.fn(A + "resolve_predicate_data_len")
     if ctx.anchor("R2", "fn resolve_predicate_data_len", f):
